@@ -119,6 +119,16 @@ def fam_c07(tier, seed):
                 sc["tags"] = ["queue", "requests-behind-token", "unblock:%d" % nu, "recv:" + "+".join(combo)]
                 scs.append(sc)
                 k += 1
+    # a timed receiver whose wake-ups are stolen by pollers and which is notified again AFTER the end of its own time
+    # budget would have passed (the wait is re-armed with the whole timeout): it must still be there for later requests
+    for npoll in (1, 2):
+        for pts in ([15, 30, 70], [15, 30, 45, 70, 95], [10, 25, 40, 90], [19, 38, 57, 76, 110]):
+            apps = [R_timed_loop(T, 8)] + [R_try_loop(48) for _ in range(npoll)]
+            cc = [simple_conn(c, 1, at_ns=t * MS) for c, t in enumerate(pts)]
+            sc = scenario("C07-l%03d" % k, "C07", cc, apps, horizon_ms=12 * T, single=False)
+            sc["tags"] = ["queue", "stolen-then-late-wake", "demote", "pollers:%d" % npoll, "at:" + "+".join(map(str, pts))]
+            scs.append(sc)
+            k += 1
     for combo, ut, pts in extra:
         apps = [recvs[r]() for r in combo] + [unblocker(ut, 1)]
         cc = [simple_conn(c, 1, at_ns=t) for c, t in enumerate(pts)]
@@ -491,6 +501,26 @@ def fam_c20(tier, seed):
         scs.append(sc)
         k += 1
     return scs
+
+def _full_head_storm(prop, k0, sizes=(60, 150)):
+    """real sockets only: many connections that each send a COMPLETE request and are reset at once -- the server finds
+    a complete head on a socket whose peer is already gone (nothing can be asked of that socket any more); outcomes
+    differ from run to run (delivered or not), what is judged is that no thread panics and nothing is left behind"""
+    out = []
+    for n in sizes:
+        cc = []
+        for c in range(n):
+            raw = [b"GET @URL@ HTTP/1.1\r\nHost: x\r\n\r\n", b"POST @URL@ HTTP/1.1\r\nHost: x\r\nContent-Length: 3\r\n\r\nabc",
+                   b"GET @URL@ HTTP/1.0\r\n\r\n"][c % 3]
+            d, j, ln = conn([Msg(cls="close", why=prop, raw_head=raw)], c)
+            d["prog"] = [{"op": "send", "to": ln}, {"op": "reset"}]
+            cc.append((d, j, ln))
+        sc = scenario("%s-s%03d" % (prop, k0 + len(out)), prop, cc, [serve("recv", "spawn")], horizon_ms=400, single=False, transport="tcp")
+        sc["tags"] = ["vanish", "reset-storm", "complete-head", "n:%d" % n]
+        sc["d2only"] = True
+        sc["judge"]["resonly"] = True
+        out.append(sc)
+    return out
 
 # ------------------------------------------------------------------------------------------------
 # C01 / C06: the writer chain
@@ -1140,6 +1170,13 @@ def fam_c16(tier, seed):
                      ("overflow-by-one", "18446744073709551616"), ("overflow-wraps-to-5", "18446744073709551621"),
                      ("overflow-20-digits", "99999999999999999999"), ("overflow-21-digits", "184467440737095516160")):
         heads.append(("cl-" + tag, "POST @URL@ HTTP/1.1\r\nHost: x\r\nContent-Length: %s\r\n\r\n" % val, "bad-content-length"))
+    # an invalid Content-Length next to a valid one (either order), or next to Transfer-Encoding (either order): whichever
+    # header this server frames the body with, another parser may pick the other one
+    for tag, val in (("plus", "+5"), ("alpha", "abc"), ("list", "5, 5"), ("empty", ""), ("overflow", "9" * 25), ("digits-alpha", "5x")):
+        heads.append(("cl-%s-then-valid" % tag, "POST @URL@ HTTP/1.1\r\nHost: x\r\nContent-Length: %s\r\nContent-Length: 5\r\n\r\n" % val, "bad-content-length"))
+        heads.append(("cl-valid-then-%s" % tag, "POST @URL@ HTTP/1.1\r\nHost: x\r\nContent-Length: 5\r\ncontent-length: %s\r\n\r\n" % val, "bad-content-length"))
+        heads.append(("cl-%s-then-te" % tag, "POST @URL@ HTTP/1.1\r\nHost: x\r\nContent-Length: %s\r\nTransfer-Encoding: chunked\r\n\r\n" % val, "bad-content-length"))
+        heads.append(("te-then-cl-%s" % tag, "POST @URL@ HTTP/1.1\r\nHost: x\r\nTransfer-Encoding: chunked\r\nContent-Length: %s\r\n\r\n" % val, "bad-content-length"))
     scs = []
     k = 0
     smuggled = b"hello"
@@ -1163,6 +1200,45 @@ def fam_c16(tier, seed):
                 sc["tags"] = ["smuggling", tag, kind, "pos:%d" % pos]
                 scs.append(sc)
                 k += 1
+    # every arrangement of up to three framing headers (Transfer-Encoding, Content-Length of each value class, others),
+    # generated by TLC from HeadSyntax!FramingHeads with the reference class (FramingClass) and framing (FramedBy)
+    import props as _props, json as _json, os as _os, vlib as _vlib
+    gen = _os.path.join(_vlib.WORK, "C16gen")
+    _os.makedirs(gen, exist_ok=True)
+    gpath = _os.path.join(gen, "heads.ndjson")
+    _props.fn_tlc("genC16", tier, gpath, "/dev/null", "fn_genC16")
+    badval = {"empty": "", "plus": "+5", "alpha": "abc", "mixed": "5x", "list": "5, 5", "overflow": "9" * 25}
+    clnames = ["Content-Length", "content-length", "CONTENT-LENGTH"]
+    for rec in (_json.loads(l) for l in open(gpath)):
+        lines = []
+        for i, h in enumerate(rec["hs"]):
+            if h == "te":
+                lines.append((["Transfer-Encoding", "transfer-encoding", "TRANSFER-ENCODING"][i], "chunked"))
+            elif h == "other":
+                lines.append(("X-Other-%d" % i, "5x"))
+            else:
+                c = h.split(":")[1]
+                lines.append((clnames[i], "5" if c == "valid" else badval[c]))
+        tag = "+".join(rec["hs"])
+        if rec["cls"] == "r400":
+            raw = "POST @URL@ HTTP/1.1\r\nHost: x\r\n" + "".join("%s: %s\r\n" % nv for nv in lines) + "\r\n"
+            for pos in (0, 1):
+                if pos == 1 and (tier == "quick" and rng.random() > 0.25):
+                    continue
+                msgs = ([Msg()] if pos else []) + [Msg(cls="r400", why="C16", raw_head=raw.encode("latin1"))]
+                d, j, ln = conn(msgs, 0, trailing=smuggled + b"GET /c0m9 HTTP/1.1\r\nHost: smuggled\r\n\r\n")
+                sc = scenario("C16-g%04d" % k, "C16", [(d, j, ln)], _single_app(), horizon_ms=100)
+                sc["tags"] = ["smuggling", "generated-framing-headers", "bad-content-length", tag, "pos:%d" % pos]
+                scs.append(sc)
+                k += 1
+        else:
+            kw = {"chunked": dict(framing="chunked", body_len=5, chunks=[3]), "cl": dict(framing="cl", body_len=5), "none": dict()}[rec["by"]]
+            m = Msg(method="POST", headers=[("Host", "x")] + lines, plan=_with_read(respond(200, 2), sizes=[64], to_eof=True), **kw)
+            d, j, ln = conn([m, Msg()], 0)
+            sc = scenario("C16-g%04d" % k, "C16", [(d, j, ln)], _single_app(), horizon_ms=100)
+            sc["tags"] = ["smuggling", "generated-framing-headers", "accepted", tag]
+            scs.append(sc)
+            k += 1
     # accepted forms must keep working (no over-rejection): "5", "05", " 5 "
     for val in ("5", "05", " 5 ", "0"):
         n = int(val.strip())
@@ -1264,6 +1340,37 @@ def fam_c18(tier, seed):
                     sc["tags"] = ["continue", "expect:%s" % exp, tag, pname, "pos:%d" % pos]
                     scs.append(sc)
                     k += 1
+    # ONE application thread serves several Expect requests in a row (the usual worker loop) -- on one connection, or
+    # on several: every one of them gets its interim response exactly once
+    for lens in ((5, 5), (5, 1024, 5000), (0, 5, 0, 5), (2000, 3, 3, 3)):
+        for how in ("readall", "ask"):
+            mk = (lambda: _with_read(respond(200, 3), sizes=[600], to_eof=True)) if how == "readall" else (lambda: _with_read(respond(200, 3), ask=2))
+            # (a) one connection, each body withheld until that request's interim response has been seen
+            msgs = [Msg(method="POST", framing="cl", body_len=n, expect="100-continue" if i % 2 == 0 else "100-Continue", plan=mk()) for i, n in enumerate(lens)]
+            d, j, ln = conn(msgs, 0)
+            prog = []
+            for i, me in enumerate(d["msgs"]):
+                prog.append({"op": "send", "to": me["he"]})
+                if lens[i] > 0:
+                    prog.append({"op": "await", "frames": 2 * i + 1})
+                prog.append({"op": "send", "to": me["be"]})
+            d["prog"] = prog
+            sc = scenario("C18-%04d" % k, "C18", [(d, j, ln)], _single_app(), horizon_ms=100)
+            sc["tags"] = ["continue", "one-thread-many-expectations", "same-connection", how, "lens:" + "+".join(map(str, lens))]
+            scs.append(sc)
+            k += 1
+            # (b) one connection per request, one after the other
+            cc = []
+            for i, n in enumerate(lens):
+                d, j, ln = conn([Msg(method="POST", framing="cl", body_len=n, expect="100-continue", conn="close", plan=mk())], i)
+                me = d["msgs"][0]
+                d["prog"] = [{"op": "sleep", "ns": (1 + 3 * i) * MS}, {"op": "send", "to": me["he"]}] + \
+                            ([{"op": "await", "frames": 1}] if n > 0 else []) + [{"op": "send", "to": ln}]
+                cc.append((d, j, ln))
+            sc = scenario("C18-%04d" % k, "C18", cc, _single_app(), horizon_ms=100, single=False)
+            sc["tags"] = ["continue", "one-thread-many-expectations", "one-connection-each", how, "lens:" + "+".join(map(str, lens))]
+            scs.append(sc)
+            k += 1
     return scs
 
 def line_cuts(stream_hex, limit=4000):
@@ -1421,6 +1528,7 @@ def fam_c15(tier, seed):
         sc["d2only"] = True
         scs.append(sc)
         k += 1
+    scs += _full_head_storm("C15", 0)
     # the client goes away while responses are being written / never reads
     for size, declared in ((10, True), (3000, True), (70000, True), (5000, False)):
         for when in ("before", "during", "noread"):
@@ -1517,6 +1625,9 @@ def fam_c02(tier, seed):
             wire.append(("Connection", "keep-alive"))
         m.headers = wire
         m.raw_head = None
+        # the line on the wire is exactly the line of the specification: nothing but the colon between name and raw
+        # value (the optional whitespace is part of the generated raw value)
+        m.hsep = ":"
         msgs.append(m)
         if len(msgs) >= per_conn:
             scs.append(flush(msgs, k, ["generated-lines"]))
@@ -1539,6 +1650,15 @@ def fam_c02(tier, seed):
     for sfx in suffixes:
         special.append(Msg(target_suffix=sfx, headers=[("Host", "x")]))
     scs.append(flush(special, k, ["special"]))
+    k += 1
+    # no whitespace (or a tab) after the name's colon, and a colon followed by a space further inside the value
+    tight = []
+    for hs in ([("X-Time", "12: 30")], [("X-Note", "\tsee: below")], [("Host", "verif"), ("X-A", "b: c: d"), ("X-E", ": x")],
+               [("X-Url", "http://h: 80/"), ("Y", "1")], [("X-T", "\t a: b \t")]):
+        mm = Msg(headers=hs)
+        mm.hsep = ":"
+        tight.append(mm)
+    scs.append(flush(tight, k, ["special", "colon-space-inside-value"]))
     k += 1
     # the headers the library itself interprets, in spellings that keep their meaning: what it hands over is
     # still what was sent, not a normalised form
@@ -1747,6 +1867,22 @@ def fam_c14(tier, seed):
         # (answered requests are several trace events each: their count stays moderate; rejected ones leave no events)
         for n in ((4000,) if tier == "quick" else ((4000, 60000) if tag.startswith("v") else (4000, 9000))):
             heads.append(("many-heads:%s:%d" % (tag, n), one * n + b"GET @URL@ HTTP/1.1\r\nHost: x\r\n\r\n", "ok"))
+    # the client is gone (reset) by the time the handler of an Expect: 100-continue request first touches the body: the
+    # interim response cannot be written; reading, answering or dropping the request afterwards must not panic
+    for h, pl in (("all-respond", lambda: _with_read(respond(200, 3), sizes=[4096], to_eof=True)),
+                  ("all-writer", lambda: _with_read(writer([4], flush="last"), sizes=[4096], to_eof=True)),
+                  ("all-drop", lambda: _with_read(drop(), sizes=[4096], to_eof=True)),
+                  ("std-respond", lambda: dict(respond(200, 3), read_std="read_to_end")),
+                  ("some-respond-big", lambda: _with_read(respond(200, 70000), sizes=[2], upto=2))):
+        for n, lead, fault in itertools.product((5, 3000), (0, 1), ("reset", "close")):
+            p = pl()
+            p["delay_ns"] = 6 * MS
+            m = Msg(method="POST", framing="cl", body_len=n, expect="100-continue", plan=p)
+            msgs = ([Msg()] if lead else []) + [m]
+            def prog(d, ln, lead=lead, fault=fault):
+                he = d["msgs"][lead]["he"]
+                return [{"op": "send", "to": he}, {"op": "sleep", "ns": 2 * MS}, {"op": fault}]
+            add(msgs, ["gone-before-interim", h, "n:%d" % n, "lead:%d" % lead, fault], prog=prog)
     for tag, raw, kind in heads:
         # outcome classes differ (delivered / 400 / close); C14 only looks at panics, aborts and allocation,
         # so the message is described as a plain close-class message and the connection is cut afterwards
@@ -1769,6 +1905,7 @@ def fam_c14(tier, seed):
                 sc["judge"]["resonly"] = True
                 scs.append(sc)
                 k += 1
+    scs += _full_head_storm("C14", 0)
     return scs
 
 FAMILIES["C14"] = fam_c14
